@@ -93,6 +93,7 @@ type Monitor struct {
 	Field   string // mutex field
 	Guards  []string
 	Inv     *Clause
+	Also    []string // "Type.field" of other structs protected by this lock (the lock owner is found among the function's parameters)
 	Owner   string // function key of the single writer goroutine: its own reads need no lock
 	File    string
 }
@@ -609,6 +610,13 @@ func (cs *Contracts) parseMonitor(path string, line int, rest, pkgName string) {
 		inv = strings.TrimSpace(rest[i+len(" invariant "):])
 		rest = rest[:i]
 	}
+	var also []string
+	if i := strings.Index(rest, " also "); i >= 0 {
+		for _, a := range strings.Split(rest[i+len(" also "):], ",") {
+			also = append(also, strings.TrimSpace(a))
+		}
+		rest = rest[:i]
+	}
 	owner := ""
 	if i := strings.Index(rest, " owner "); i >= 0 {
 		owner = strings.TrimSpace(rest[i+len(" owner "):])
@@ -624,7 +632,7 @@ func (cs *Contracts) parseMonitor(path string, line int, rest, pkgName string) {
 		cs.Errors = append(cs.Errors, fmt.Sprintf("%s:%d: monitor needs Type.field", path, line))
 		return
 	}
-	m := &Monitor{PkgName: pkgName, Type: tf[0], Field: tf[1], File: path, Owner: qualifyFuncName(owner, pkgName)}
+	m := &Monitor{PkgName: pkgName, Type: tf[0], Field: tf[1], File: path, Owner: qualifyFuncName(owner, pkgName), Also: also}
 	for _, g := range strings.Split(parts[1], ",") {
 		m.Guards = append(m.Guards, strings.TrimSpace(g))
 	}
